@@ -251,7 +251,7 @@ def jobs(tier):
         out.append(Job('C18', 's1.expect', t_expect, dict(variant='basic', sym_te=False, t_e='1/4'), witnesses=W))
         out.append(Job('C18', 's1.expect', t_expect, dict(variant='predicate_raises', sym_te=False, t_e='0'), witnesses=W))
         out.append(Job('C18', 's1.expect', t_expect, dict(variant='two', sym_te=False, t_e='0', pmax=2), witnesses=W))
-        for rng in (['0', '1/10'], ['1/10', '1/5'], ['1/5', '3/10'], ['3/10', '2/5']):
+        for rng in (['0', '1/20'], ['1/20', '1/10'], ['1/10', '1/5'], ['1/5', '3/10'], ['3/10', '2/5']):
             out.append(Job('C18', 's1.expect', t_expect, dict(variant='slow_timeout', sym_te=False, t_e='0', pmax=1, ds_range=rng)))
         out.append(Job('C18', 's1.expect', t_expect, dict(variant='override', sym_te=False, t_e='0', pmax=1)))
         out.append(Job('C18', 's1.expect', t_expect, dict(variant='clear_during', sym_te=False, t_e='0', pmax=0), witnesses=('cleared while pending',)))
